@@ -41,6 +41,25 @@ CURATED = [
 ]
 
 
+def boundary_family():
+    """systematic: two or three constraints on ONE pair of time points whose constants differ by -1 / 0 / +1 (so that <, <=, >=, >
+    boundaries of the implementation are all hit), asserted and negated in both orders, then popped"""
+    out = []
+    for d in (-1, 1):
+        for e in (-1, 0, 1):
+            # c0: t2 - t1 <= d ; c1: t1 - t2 <= -d + e  (i.e. t2 - t1 >= d - e) ; c2: t2 - t1 <= d + e
+            cons = [(1, 2, d), (2, 1, -d + e), (1, 2, d + e)]
+            for s0, s1 in ((1, 1), (1, 0), (0, 1), (0, 0)):
+                out.append((2, cons, [(A, 0, s0), (A, 1, s1), (CHK, 2, 1), (POP, 0, 0), (A, 2, s1)]))
+                out.append((2, cons, [(A, 1, s1), (A, 0, s0), (A, 2, 0), (POP, 0, 0), (POP, 0, 0)]))
+    # the same boundary reached through a two-edge path t1 -> t2 -> t3
+    for e in (-1, 0, 1):
+        cons = [(1, 2, 1), (2, 3, 1), (3, 1, -2 + e), (1, 3, 2 + e)]
+        out.append((3, cons, [(A, 0, 1), (A, 1, 1), (A, 2, 0), (POP, 0, 0), (A, 3, 0)]))
+        out.append((3, cons, [(A, 2, 1), (A, 0, 1), (A, 1, 1), (POP, 0, 0)]))
+    return out
+
+
 def sample(rng, n, T, maxc, maxh):
     out = []
     for _ in range(n):
@@ -66,9 +85,9 @@ def fmt(T, cons, hist):
 def jobs(tier):
     seed = int(os.environ.get('VERIF_SEED', '0') or 0)
     rng = random.Random(4321 + seed)
-    scs = list(CURATED)
+    scs = list(CURATED) + boundary_family()
     if tier == 'quick':
-        scs += sample(rng, 50, 3, 5, 5) + sample(rng, 20, 2, 4, 6)
+        scs += sample(rng, 30, 3, 5, 5) + sample(rng, 10, 2, 4, 6)
         k = 5
     else:
         scs += sample(rng, 400, 3, 6, 6) + sample(rng, 200, 2, 5, 7)
